@@ -127,8 +127,15 @@ def run_shards(prop, cfg, seed, n, tier, tag, release=False):
             harness_bin(release), key, seed * 1000 + i, cnt, tier, req, DRIVER, req, out)
         procs.append((subprocess.Popen(cmd, shell=True, env=ENV, stderr=subprocess.PIPE, text=True), req, out, seed * 1000 + i))
     recs = []
+    deadline = time.time() + (3600 if tier == "thorough" else 900)
     for p, req, out, s in procs:
-        _, err = p.communicate()
+        try:
+            _, err = p.communicate(timeout=max(5, deadline - time.time()))
+        except subprocess.TimeoutExpired:
+            subprocess.run("pkill -9 -P %d" % p.pid, shell=True)
+            p.kill()
+            _, err = p.communicate()
+            err = (err or "") + " [shard timed out]"
         recs.extend(read_pair(req, out, s, p.returncode, err))
     return recs
 
@@ -141,8 +148,13 @@ def run_requests(prop, requests, tag, release=False):
         for r in requests:
             f.write(r + "\n")
     cmd = "%s exec < %s > %s && %s < %s > %s" % (harness_bin(release), inp, req, DRIVER, req, out)
-    p = subprocess.run(cmd, shell=True, env=ENV, stderr=subprocess.PIPE, text=True)
-    return read_pair(req, out, None, p.returncode, p.stderr)
+    try:
+        p = subprocess.run(cmd, shell=True, env=ENV, stderr=subprocess.PIPE, text=True, timeout=900)
+        rc, err = p.returncode, p.stderr
+    except subprocess.TimeoutExpired:
+        subprocess.run("pkill -9 -f 'dbgdriver|dbg-harness exec'", shell=True)
+        rc, err = 124, "[timed out]"
+    return read_pair(req, out, None, rc, err)
 
 
 def read_pair(req, out, seed, rc, err):
